@@ -36,6 +36,7 @@ CONSTANTS FreezeBeforeMetaFlush,
           CommitSeqBeforeWrite,  \* the replicator commits the sequence before it writes the rows (seeded change C07b)
           SeriesFirst,           \* the index flush commits the series family before the index families (seeded change C07c)
           ExpireOnConsumed,      \* the log of an expired family counts as empty once everything is CONSUMED (seeded change C07d)
+          IgnoreOverGap,         \* IgnoreMessage acknowledges an undecodable entry whenever it lies above the acknowledged position (seeded change C07f)
           Writable               \* late data of the family is still accepted (not older than the option `behind`): its log never expires
 
 VARIABLES
@@ -88,22 +89,31 @@ AppendEntry(n) ==
   /\ wal' = Append(wal, n)
   /\ UNCHANGED <<gAck, qAck, dDict, dCounter, dFiles, dSeq, up, gCons, fSeq, mDict, mCounter, mem, imm, immSeq, gen, ifl, pendAck, ixvars>>
 
+\* an entry whose payload cannot be decoded (not a compressed block): the replicator skips it (IgnoreMessage: acknowledged
+\* only when it lies directly behind the acknowledged position, so that no good entry below it is acknowledged with it)
+Bad(n) == n = "bad"
+IgnoreAck(s) == IF IgnoreOverGap THEN (IF gAck < s THEN s ELSE gAck) ELSE (IF gAck + 1 = s THEN s ELSE gAck)
+
 \* one round of the local replicator
 ReplicaStep ==
   /\ up /\ ifl = NoIfl /\ gCons + 1 <= Len(wal) - 1
   /\ LET s == gCons + 1  n == wal[s + 1] IN
      /\ gCons' = s
-     /\ IF s > fSeq
+     /\ IF s > fSeq /\ Bad(n)
+          THEN \* the message cannot be decoded: nothing is written, the sequence is committed, IgnoreMessage
+               /\ fSeq' = s /\ gAck' = IgnoreAck(s)
+               /\ UNCHANGED <<mem, mDict, mCounter, mSer, mIdx>>
+          ELSE IF s > fSeq
           THEN /\ IF n \in DOMAIN AllDict
                     THEN /\ mem' = mem \cup {[id |-> AllDict[n], seq |-> s]}
                          /\ UNCHANGED <<mDict, mCounter>>
                     ELSE /\ mDict' = Merge(mDict, [x \in {n} |-> mCounter])
                          /\ mCounter' = mCounter + 1
                          /\ mem' = mem \cup {[id |-> mCounter, seq |-> s]}
-               /\ fSeq' = s
+               /\ fSeq' = s /\ UNCHANGED gAck
                /\ IndexWrite(IdUsed(n))
-          ELSE UNCHANGED <<mem, mDict, mCounter, fSeq, mSer, mIdx>>       \* ValidateSequence rejects: already persisted
-  /\ UNCHANGED <<wal, gAck, qAck, dDict, dCounter, dFiles, dSeq, up, imm, immSeq, gen, ifl, pendAck, dSer, dIdx, iSer, iIdx, idxPhase, badIdx>>
+          ELSE UNCHANGED <<mem, mDict, mCounter, fSeq, mSer, mIdx, gAck>>       \* ValidateSequence rejects: already persisted
+  /\ UNCHANGED <<wal, qAck, dDict, dCounter, dFiles, dSeq, up, imm, immSeq, gen, ifl, pendAck, dSer, dIdx, iSer, iIdx, idxPhase, badIdx>>
 
 \* The same round in the three steps of localReplicator.Replica, so that the flush job can fall between
 \* them (the replicator and the flush checker are different goroutines; no lock spans the round):
@@ -121,7 +131,9 @@ RWrite ==
   /\ up /\ ifl.st = "validated"
   /\ ifl' = [ifl EXCEPT !.st = "written"]
   /\ LET s == ifl.seq  n == wal[s + 1] IN
-     IF ifl.ok
+     IF ifl.ok /\ Bad(n)
+       THEN UNCHANGED <<mem, mDict, mCounter>>
+       ELSE IF ifl.ok
        THEN IF n \in DOMAIN AllDict
               THEN /\ mem' = mem \cup {[id |-> AllDict[n], seq |-> s]}
                    /\ UNCHANGED <<mDict, mCounter>>
@@ -129,14 +141,15 @@ RWrite ==
                    /\ mCounter' = mCounter + 1
                    /\ mem' = mem \cup {[id |-> mCounter, seq |-> s]}
        ELSE UNCHANGED <<mem, mDict, mCounter>>
-  /\ IF ifl.ok THEN IndexWrite(IdUsed(wal[ifl.seq + 1])) ELSE UNCHANGED <<mSer, mIdx>>
+  /\ IF ifl.ok /\ ~Bad(wal[ifl.seq + 1]) THEN IndexWrite(IdUsed(wal[ifl.seq + 1])) ELSE UNCHANGED <<mSer, mIdx>>
   /\ UNCHANGED <<wal, gAck, qAck, dDict, dCounter, dFiles, dSeq, up, gCons, fSeq, imm, immSeq, gen, pendAck, dSer, dIdx, iSer, iIdx, idxPhase, badIdx>>
 
 RCommit ==
   /\ up /\ ifl.st = "written"
   /\ ifl' = NoIfl
   /\ fSeq' = IF ifl.ok /\ ~CommitSeqBeforeWrite THEN ifl.seq ELSE fSeq
-  /\ UNCHANGED <<wal, gAck, qAck, dDict, dCounter, dFiles, dSeq, up, gCons, mDict, mCounter, mem, imm, immSeq, gen, pendAck, ixvars>>
+  /\ gAck' = IF ifl.ok /\ Bad(wal[ifl.seq + 1]) THEN IgnoreAck(ifl.seq) ELSE gAck
+  /\ UNCHANGED <<wal, qAck, dDict, dCounter, dFiles, dSeq, up, gCons, mDict, mCounter, mem, imm, immSeq, gen, pendAck, ixvars>>
 
 Freeze == imm' = mem /\ mem' = {} /\ immSeq' = fSeq
 
@@ -261,9 +274,9 @@ Recover ==
 
 \* ------------------------------------------------------------------ properties (C07)
 \* the log's acknowledged position never runs ahead of the sequence stored durably with the data
-AckNotAhead == gAck <= dSeq
+AckNotAhead == \A s \in (dSeq + 1)..gAck : Bad(wal[s + 1])      \* (an undecodable entry is skipped for good)
 \* every appended entry is in durably flushed data or still above the log's acknowledged position
-NoLoss == \A s \in 0..(Len(wal) - 1) : (\E b \in dFiles : b.seq = s) \/ (s > gAck /\ s > qAck)
+NoLoss == \A s \in 0..(Len(wal) - 1) : (\E b \in dFiles : b.seq = s) \/ (s > gAck /\ s > qAck) \/ Bad(wal[s + 1])
 \* an entry at or below the stored sequence is never applied again
 NoReapply == /\ \A b \in mem \cup imm : b.seq > dSeq \/ ~up
              /\ \A a, b \in dFiles : (a.seq = b.seq) => a.gen = b.gen
